@@ -17,6 +17,7 @@ from sa.report import load_known                            # noqa: E402
 
 IDS = [f'C{n:02d}' for n in range(1, 21)]
 _BASE = None
+_SS_CACHE = {}
 
 
 def work(args):
@@ -25,7 +26,10 @@ def work(args):
     if _BASE is None:
         _BASE = SourceSet.load('/repo')
     known = {k['key'] for k in load_known().get('findings', [])}
-    ss = PatchVariant('x', patch, None).build(_BASE)
+    if patch not in _SS_CACHE:
+        _SS_CACHE.clear()
+        _SS_CACHE[patch] = PatchVariant('x', patch, None).build(_BASE)
+    ss = _SS_CACHE[patch]
     if ss is None:
         return patch, pid, 'noapply', ''
     try:
@@ -50,7 +54,7 @@ def main():
     only = sys.argv[sys.argv.index('--only') + 1].split(',') if '--only' in sys.argv else IDS
     tasks = [(p, pid) for p in patches for pid in IDS if pid in only]
     with multiprocessing.Pool(jobs) as pool:
-        res = pool.map(work, tasks, chunksize=4)
+        res = pool.map(work, tasks, chunksize=20)
     by = {}
     for patch, pid, status, msg in res:
         by.setdefault(patch, []).append((pid, status, msg))
